@@ -302,6 +302,25 @@ pub fn suite_capi_args(ctx: &mut Ctx, thorough: bool) {
             }
         }
     }
+    // failures reported by the kernel (not by argument validation): the error value stays in the C error
+    // table until it is consumed, and must not hold on to descriptors meanwhile
+    for func in INROOT_FUNCS.iter().copied() {
+        for path in [&b"a/missing/x"[..], b"a/f/notdir", b"l/../../missing", b"len9/y"] {
+            let mut a = defaults(func);
+            a.fd = 0;
+            a.path = Some(path.to_vec());
+            if func == "mknod" {
+                a.mode = libc::S_IFREG | 0o644;
+            }
+            if func == "rename" {
+                a.path2 = Some(b"d/renamed".to_vec());
+            }
+            if func == "symlink" || func == "hardlink" {
+                a.path2 = Some(b"a/f".to_vec());
+            }
+            next(ctx, a, "valid");
+        }
+    }
     // open_root
     for path in [Some(b"/".to_vec()), None, Some(b"/nonexistent-dir".to_vec())] {
         let mut a = defaults("open_root");
